@@ -6,6 +6,7 @@ package main
 
 import (
 	"bytes"
+	"os"
 	crand "crypto/rand"
 	"fmt"
 	"io"
@@ -45,15 +46,19 @@ func (p *concParty) HandleSMPEvent(event otr3.SMPEvent, pct int, question string
 	*p.log = append(*p.log, fmt.Sprintf("%s smp:%d:%d", p.tag, int(event), pct))
 }
 func (p *concParty) HandleErrorMessage(code otr3.ErrorCode) []byte {
-	return []byte(fmt.Sprintf("E%d", int(code)))
+	// short and specific to this pair: whatever another conversation writes into memory shared with
+	// this one shows up as a foreign text
+	return []byte(fmt.Sprintf("E%d%s", int(code), p.tag))
 }
 
 // one pair doing handshake, traffic, errors, SMP, fragmentation and teardown; the transcript
 // contains everything that is deterministic given the seed (DSA signatures are not: wire bytes omitted)
-func concRun(seed int64) []string {
+func concRun(seed int64) ([]string, []otr3.ValidMessage) {
 	r := rand.New(rand.NewSource(seed))
 	var log []string
+	pairTag := fmt.Sprintf("%x", uint32(seed)&0xffff)
 	mk := func(tag string, keyIdx int, frag uint16) *concParty {
+		tag += pairTag
 		c := &otr3.Conversation{}
 		c.Rand = &seedReader{rand.New(rand.NewSource(r.Int63()))}
 		c.Policies.AllowV2()
@@ -155,8 +160,36 @@ func concRun(seed int64) []string {
 		}
 	}
 	settle()
+	// error replies: the slices returned by Receive are kept (not copied) and looked at again at the
+	// end - a reply must not change after it has been handed out, whatever other conversations do
+	var held []otr3.ValidMessage
+	for k := 0; k < 12; k++ {
+		if !a.c.IsEncrypted() || !b.c.IsEncrypted() {
+			break
+		}
+		age()
+		ts, _ := a.c.Send([]byte(fmt.Sprintf("text %d of pair %s", k, pairTag)))
+		for j, m := range ts {
+			if j == 0 && len(m) > 60 {
+				m[len(m)-12] ^= 1 // inside the base64 text of the message or of its first fragment
+			}
+			age()
+			_, back, err := b.c.Receive(m)
+			log = append(log, fmt.Sprintf("%s recv damaged err=%s n=%d", b.tag, otr3.VerifErrClass(err), len(back)))
+			held = append(held, back...)
+		}
+	}
 	_ = io.EOF
-	return log
+	return log, held
+}
+
+// what the replies handed out earlier look like now
+func heldLines(held []otr3.ValidMessage) []string {
+	var out []string
+	for i, m := range held {
+		out = append(out, fmt.Sprintf("held reply %d: %q", i, m))
+	}
+	return out
 }
 
 func init() {
@@ -173,10 +206,26 @@ func init() {
 		}
 		solo := make([][]string, n)
 		for i := 0; i < n; i++ {
-			solo[i] = concRun(seed*100000 + int64(i))
+			// alone: the replies are looked at again before any other conversation exists
+			lg, held := concRun(seed*100000 + int64(i))
+			solo[i] = append(lg, heldLines(held)...)
+			for _, l := range solo[i] {
+				if strings.HasPrefix(l, "held reply") || strings.Contains(l, "recv damaged") {
+					if os.Getenv("VERIF_DEBUG") != "" && i == 0 {
+						fmt.Fprintln(os.Stderr, l[:min(len(l), 90)])
+					}
+				}
+				if strings.HasPrefix(l, "held reply") {
+					dist["conc:held-error-replies"]++
+					if strings.Contains(l, "?OTR Error") {
+						dist["conc:held-error-replies:error-message"]++
+					}
+				}
+			}
 		}
 		for round := 0; round < 2; round++ {
 			conc := make([][]string, n)
+			heldAll := make([][]otr3.ValidMessage, n)
 			var wg sync.WaitGroup
 			for i := 0; i < n; i++ {
 				wg.Add(1)
@@ -187,10 +236,23 @@ func init() {
 							conc[i] = []string{fmt.Sprint("PANIC ", r)}
 						}
 					}()
-					conc[i] = concRun(seed*100000 + int64(i))
+					conc[i], heldAll[i] = concRun(seed*100000 + int64(i))
 				}(i)
 			}
 			wg.Wait()
+			// concurrently: the replies are looked at again when all conversations are done
+			for i := 0; i < n; i++ {
+				if len(conc[i]) != 1 || !strings.HasPrefix(conc[i][0], "PANIC") {
+					conc[i] = append(conc[i], heldLines(heldAll[i])...)
+				}
+			}
+			if os.Getenv("VERIF_DEBUG") != "" {
+				for _, l := range conc[0] {
+					if strings.HasPrefix(l, "held reply") {
+						fmt.Fprintln(os.Stderr, "CONC", l[:min(len(l), 90)])
+					}
+				}
+			}
 			for i := 0; i < n; i++ {
 				olog.ok("C20")
 				dist["conc:pairs"]++
